@@ -90,6 +90,7 @@ type MapObj struct {
 	Frozen bool
 	Epoch int
 	Ents []MapEnt
+	TM   *termMap // non-nil: term-map representation (integer keys, scalar values)
 }
 type MapEnt struct{ K, V Value }
 
